@@ -1,21 +1,34 @@
 // Package c04 drives golib's decoders on truncated and hostile inputs.
 //
-// The parent generates valid encodings (values, steps, records, packs, UDP packs,
-// primitive streams) and hands them to a child process (the same binary, run
-// under an address-space limit) that decodes every strict prefix and every
-// hostile overwrite, so that a fatal out-of-memory or a hang is attributed to
-// the input being decoded.  The child only measures; Trace_FailClosed.tla judges.
+// The parent generates valid encodings (values, steps, records, packs - factory
+// made and decoded through their own Read -, UDP packs, primitive streams read
+// from a buffer and from a connection) and hands them to a child process (the
+// same binary, run under an address-space limit) that decodes every strict
+// prefix and every hostile overwrite, so that a fatal out-of-memory or a hang is
+// attributed to the input being decoded.  Whenever a decode returns an object the
+// child also runs the SECOND stage on it: every public accessor of the object is
+// called twice, the object is written and the written bytes are decoded and
+// accessed again (sequences of calls on one object, same allocation accounting).
+// At every position that holds a type tag by construction all codes are tried.
+// The child only measures; Trace_FailClosed.tla judges.
 package c04
 
 import (
 	"bufio"
+	"bytes"
 	"encoding/hex"
 	"encoding/json"
+	"errors"
 	"fmt"
+	stdio "io"
 	"math/rand"
+	"net"
 	"os"
 	"os/exec"
+	"reflect"
 	"runtime"
+	"runtime/metrics"
+	"sort"
 	"strconv"
 	"strings"
 	"time"
@@ -33,45 +46,149 @@ import (
 
 func init() { core.Register("c04", Run) }
 
-// item is one valid encoding plus how to decode it.
-type item struct {
-	Kind string `json:"kind"` // decoder selector
-	Sub  string `json:"sub"`  // type within the kind (for the evidence)
-	Hex  string `json:"hex"`
-	Ver  int32  `json:"ver,omitempty"`
-	T    int    `json:"t,omitempty"`
-	Gen  string `json:"gen"`
-	Case int    `json:"case"`
+// tagpos is a position of a valid encoding that holds a type tag BY CONSTRUCTION
+// (the generator knows it from how the encoding was put together, never from the decoder).
+type tagpos struct {
+	Pos  int    `json:"pos"`
+	W    int    `json:"w"`             // width of the tag in bytes
+	Kind string `json:"kind"`          // registry the tag selects from: value | step | pack | service
+	Nest string `json:"nest"`          // "" = the object's own tag, else where the nested object sits
+	Acc  string `json:"acc,omitempty"` // the tag lies in a lazily decoded blob: the accessor that decodes it
 }
 
-// decode runs the real decoder of kind over b; returns bytes consumed.
-func decode(it *item, b []byte) (consumed int) {
+// item is one valid encoding plus how to decode it.
+type item struct {
+	Kind string   `json:"kind"` // decoder selector
+	Sub  string   `json:"sub"`  // type within the kind (for the evidence)
+	Hex  string   `json:"hex"`
+	Ver  int32    `json:"ver,omitempty"`
+	T    int      `json:"t,omitempty"`
+	Gen  string   `json:"gen"`
+	Case int      `json:"case"`
+	Tags []tagpos `json:"tags,omitempty"`
+	// NoHostile: the allocation of this decoder is by design not bounded by the input (reads from a connection)
+	NoHostile bool `json:"nohostile,omitempty"`
+}
+
+// ---------------------------------------------------------------- connection
+
+var errFault = errors.New("c04: injected connection fault")
+
+// fakeConn delivers data in chunks and then ends the stream: "eof" = clean close,
+// "err" = a read error, "eofdata" = the last chunk is returned together with io.EOF.
+type fakeConn struct {
+	data  []byte
+	pos   int
+	chunk int
+	mode  string
+}
+
+func (c *fakeConn) Read(p []byte) (int, error) {
+	if c.pos >= len(c.data) {
+		if c.mode == "err" {
+			return 0, errFault
+		}
+		return 0, stdio.EOF
+	}
+	n := len(c.data) - c.pos
+	if c.chunk > 0 && n > c.chunk {
+		n = c.chunk
+	}
+	if n > len(p) {
+		n = len(p)
+	}
+	copy(p, c.data[c.pos:c.pos+n])
+	c.pos += n
+	if c.mode == "eofdata" && c.pos == len(c.data) {
+		return n, stdio.EOF
+	}
+	return n, nil
+}
+func (c *fakeConn) Write(p []byte) (int, error)        { return len(p), nil }
+func (c *fakeConn) Close() error                       { return nil }
+func (c *fakeConn) LocalAddr() net.Addr                { return &net.TCPAddr{} }
+func (c *fakeConn) RemoteAddr() net.Addr               { return &net.TCPAddr{} }
+func (c *fakeConn) SetDeadline(t time.Time) error      { return nil }
+func (c *fakeConn) SetReadDeadline(t time.Time) error  { return nil }
+func (c *fakeConn) SetWriteDeadline(t time.Time) error { return nil }
+
+const netLimit = 1 << 16
+
+// ------------------------------------------------------------------- decoding
+
+func directByName(n string) func() interface{} {
+	for _, d := range gen.DirectTypes {
+		if d.Name == n {
+			return d.Mk
+		}
+	}
+	panic("direct type " + n)
+}
+
+// decode runs the real decoder of kind over b; returns the object and the bytes consumed.
+func decode(it *item, b []byte) (obj interface{}, consumed int) {
 	din := gio.NewDataInputX(b)
 	switch it.Kind {
 	case "value":
-		value.ReadValue(din)
+		obj = value.ReadValue(din)
 	case "step":
-		step.ReadStep(din)
-	case "steps": // a profile: concatenated steps until the input is exhausted
-		for din.Available() > 0 {
-			step.ReadStep(din)
-		}
+		obj = step.ReadStep(din)
 	case "txrecord":
-		service.NewTxRecord().Read(din)
+		obj = service.NewTxRecord().Read(din)
 	case "service":
-		service.ToObject(din)
+		obj = service.ToObject(din)
 	case "pack":
-		pack.ReadPack(din)
+		obj = pack.ReadPack(din)
 	case "udp":
-		udp.ReadPack(uint8(it.T), it.Ver, din)
+		obj = udp.ReadPack(uint8(it.T), it.Ver, din)
+	case "direct":
+		o := directByName(it.Sub)()
+		reflect.ValueOf(o).MethodByName("Read").Call([]reflect.Value{reflect.ValueOf(din)})
+		obj = o
 	case "prim": // primitive stream: ops encoded in Sub, comma separated
 		for _, op := range strings.Split(it.Sub, ",") {
 			readPrim(din, op)
 		}
+	case "net":
+		return decodeNet(it, b, "eof", 0)
 	default:
 		panic("kind")
 	}
-	return len(b) - int(din.Available())
+	return obj, len(b) - int(din.Available())
+}
+
+// decodeNet reads the primitive stream of it from a connection that delivers b and then ends.
+func decodeNet(it *item, b []byte, mode string, chunk int) (obj interface{}, consumed int) {
+	conn := &fakeConn{data: b, chunk: chunk, mode: mode}
+	din := gio.NewDataInputNet(conn)
+	for _, op := range strings.Split(it.Sub, ",") {
+		readPrim(din, op)
+	}
+	return nil, conn.pos
+}
+
+// encode writes obj the way its kind is written (the inverse of decode).
+func encode(it *item, obj interface{}) []byte {
+	out := gio.NewDataOutputX()
+	switch it.Kind {
+	case "value":
+		value.WriteValue(out, obj.(value.Value))
+	case "step":
+		step.WriteStep(out, obj.(step.Step))
+	case "txrecord":
+		obj.(*service.TxRecord).Write(out)
+	case "service":
+		service.ToBytes(obj.(service.Service), out)
+	case "pack":
+		pack.WritePack(out, obj.(pack.Pack))
+	case "udp":
+		obj.(udp.UdpPack).Write(out)
+	case "direct":
+		reflect.ValueOf(obj).MethodByName("Write").Call([]reflect.Value{reflect.ValueOf(out)})
+	default:
+		panic("kind")
+	}
+	return append([]byte(nil), out.ToByteArray()...)
 }
 
 func readPrim(din *gio.DataInputX, op string) {
@@ -104,6 +221,8 @@ func readPrim(din *gio.DataInputX, op string) {
 		din.ReadShortBytes()
 	case "IntBytes":
 		din.ReadIntBytes()
+	case "IntBytesLimit":
+		din.ReadIntBytesLimit(netLimit)
 	case "TextShort":
 		din.ReadTextShortLength()
 	case "ShortArr":
@@ -127,6 +246,9 @@ func readPrim(din *gio.DataInputX, op string) {
 
 var primOps = []string{"Bool", "Byte", "Short", "Int3", "Int", "Long5", "Long", "Float", "Double", "Decimal", "Blob", "Text",
 	"ShortBytes", "IntBytes", "TextShort", "ShortArr", "IntArr", "LongArr", "FloatArr", "DoubleArr", "TextArr", "DecArr"}
+
+// frameOps: reads whose allocation is bounded also when the input is a connection (fixed sizes and the limited frame read)
+var frameOps = []string{"IntBytesLimit", "IntBytesLimit", "Byte", "Short", "Int", "Long", "Decimal"}
 
 func writePrim(r *rand.Rand, out *gio.DataOutputX, op string) {
 	switch op {
@@ -156,7 +278,7 @@ func writePrim(r *rand.Rand, out *gio.DataOutputX, op string) {
 		out.WriteText(gen.Text(r))
 	case "ShortBytes":
 		out.WriteShortBytes(gen.Blob(r))
-	case "IntBytes":
+	case "IntBytes", "IntBytesLimit":
 		out.WriteIntBytes(gen.Blob(r))
 	case "TextShort":
 		out.WriteTextShortLength(gen.Text(r))
@@ -181,6 +303,174 @@ func writePrim(r *rand.Rand, out *gio.DataOutputX, op string) {
 	}
 }
 
+// ------------------------------------------------- nested type tags by construction
+
+var tValue = reflect.TypeOf((*value.Value)(nil)).Elem()
+
+// site is a live value object reachable from a generated object: its tagged encoding T
+// (type code + body, as value.WriteValue emits it) and the path pattern it sits under.
+type site struct {
+	pat string
+	t   []byte
+}
+
+// sites walks the exported state of x (fields, slices, and the children of value containers
+// through their public Keys/Get or Size/Get) and returns every non-nil value.Value found.
+func sites(x interface{}) []site {
+	var out []site
+	seen := map[uintptr]bool{}
+	var walk func(v reflect.Value, pat string, depth int)
+	asValue := func(v reflect.Value, pat string, depth int) bool {
+		if !v.CanInterface() || !v.Type().Implements(tValue) {
+			return false
+		}
+		val := v.Interface().(value.Value)
+		b := gen.Encode(func(o *gio.DataOutputX) { value.WriteValue(o, val) })
+		if b != nil && pat != "" {
+			out = append(out, site{pat, b})
+		}
+		// children of containers
+		core.Guard(func() {
+			keys, get, size := v.MethodByName("Keys"), v.MethodByName("Get"), v.MethodByName("Size")
+			if keys.IsValid() && get.IsValid() && keys.Type().NumIn() == 0 && get.Type().NumIn() == 1 {
+				en := keys.Call(nil)[0]
+				has := en.MethodByName("HasMoreElements")
+				next := en.MethodByName("NextString")
+				if !next.IsValid() {
+					next = en.MethodByName("NextInt")
+				}
+				if !has.IsValid() || !next.IsValid() {
+					return
+				}
+				for has.Call(nil)[0].Bool() {
+					k := next.Call(nil)[0]
+					walk(get.Call([]reflect.Value{k})[0], pat+"/*", depth+1)
+				}
+			} else if size.IsValid() && get.IsValid() && size.Type().NumIn() == 0 && get.Type().NumIn() == 1 && get.Type().In(0).Kind() == reflect.Int {
+				n := int(size.Call(nil)[0].Int())
+				for i := 0; i < n; i++ {
+					walk(get.Call([]reflect.Value{reflect.ValueOf(i)})[0], pat+"/*", depth+1)
+				}
+			}
+		})
+		return true
+	}
+	walk = func(v reflect.Value, pat string, depth int) {
+		if !v.IsValid() || depth > 6 {
+			return
+		}
+		switch v.Kind() {
+		case reflect.Interface:
+			if !v.IsNil() {
+				walk(v.Elem(), pat, depth)
+			}
+		case reflect.Ptr:
+			if v.IsNil() || seen[v.Pointer()] {
+				return
+			}
+			seen[v.Pointer()] = true
+			if asValue(v, pat, depth) {
+				return
+			}
+			walk(v.Elem(), pat, depth+1)
+		case reflect.Struct:
+			for i := 0; i < v.NumField(); i++ {
+				f := v.Type().Field(i)
+				if f.PkgPath != "" { // unexported
+					continue
+				}
+				p := pat + "." + f.Name
+				if f.Anonymous {
+					p = pat
+				}
+				walk(v.Field(i), p, depth+1)
+			}
+		case reflect.Slice, reflect.Array:
+			if v.Type().Elem().Kind() == reflect.Uint8 {
+				return
+			}
+			for i := 0; i < v.Len(); i++ {
+				walk(v.Index(i), pat+"[]", depth+1)
+			}
+		}
+	}
+	v := reflect.ValueOf(x)
+	if v.Kind() == reflect.Ptr && !v.IsNil() && v.Type().Implements(tValue) {
+		// a value: its own tag is position 0 (added by the caller); only the children are sites
+		seen[v.Pointer()] = true
+		asValue(v, "", 0)
+		return out
+	}
+	walk(v, "", 0)
+	return out
+}
+
+const minSite = 3 // a tagged encoding shorter than this is too short to be located reliably
+
+type inst struct {
+	obj interface{}
+	enc []byte
+}
+
+// confirmed: the path patterns under which, in EVERY one of several independently generated
+// instances, every located value sits in the encoding with its type code in front (0 missing,
+// >= 3 instances with a uniquely located site).  A pattern whose values are written without a
+// tag, transformed, or only sometimes written is not confirmed (and then not explored).
+func confirmed(instances []inst) map[string]bool {
+	good := map[string]int{}
+	bad := map[string]bool{}
+	for _, in := range instances {
+		had := map[string]bool{}
+		for _, s := range sites(in.obj) {
+			if len(s.t) < minSite {
+				continue
+			}
+			switch bytes.Count(in.enc, s.t) {
+			case 0:
+				bad[s.pat] = true
+			case 1:
+				had[s.pat] = true
+			}
+		}
+		for p := range had {
+			good[p]++
+		}
+	}
+	out := map[string]bool{}
+	for p, n := range good {
+		if n >= 3 && !bad[p] {
+			out[p] = true
+		}
+	}
+	return out
+}
+
+// nestedTags: the tag positions of the values nested in obj, under confirmed patterns only.
+func nestedTags(obj interface{}, enc []byte, conf map[string]bool) []tagpos {
+	var out []tagpos
+	used := map[int]bool{}
+	for _, s := range sites(obj) {
+		if len(s.t) < minSite || !conf[s.pat] || bytes.Count(enc, s.t) != 1 {
+			continue
+		}
+		q := bytes.Index(enc, s.t)
+		if q <= 0 || used[q] {
+			continue
+		}
+		used[q] = true
+		out = append(out, tagpos{Pos: q, W: 1, Kind: "value", Nest: s.pat})
+	}
+	sort.Slice(out, func(i, j int) bool { return out[i].Pos < out[j].Pos })
+	if len(out) > 12 {
+		out = out[:12]
+	}
+	return out
+}
+
+// ------------------------------------------------------------------ generation
+
+const nConfirm = 5
+
 // generate builds the items of this run (deterministic in seed, gen, case).
 func generate(c *core.Ctx) []item {
 	var items []item
@@ -191,60 +481,217 @@ func generate(c *core.Ctx) []item {
 		it.Gen, it.Case, it.Hex = g, cas, hex.EncodeToString(b)
 		items = append(items, it)
 	}
+	// the confirmed nested-tag patterns of one type: from nConfirm instances of their own
+	confFor := func(name string, mk func(r *rand.Rand) (interface{}, []byte)) map[string]bool {
+		var ins []inst
+		for j := 0; j < nConfirm; j++ {
+			var o interface{}
+			var b []byte
+			core.Guard(func() { o, b = mk(c.Rng("tagmap/"+name, j)) })
+			if o != nil && b != nil {
+				ins = append(ins, inst{o, b})
+			}
+		}
+		return confirmed(ins)
+	}
 	per := c.Pick(2, 12)
 	// values: every type code x per instances
 	cas := 0
 	for _, t := range gen.ValueTypes {
+		t := t
+		mk := func(r *rand.Rand) (interface{}, []byte) {
+			v := gen.ValueOf(r, t, 2)
+			return v, gen.Encode(func(o *gio.DataOutputX) { value.WriteValue(o, v) })
+		}
+		var conf map[string]bool
 		for i := 0; i < per; i++ {
 			if c.Want("value", cas) {
-				r := c.Rng("value", cas)
-				v := gen.ValueOf(r, t, 2)
-				add("value", cas, item{Kind: "value", Sub: fmt.Sprint(t)}, gen.Encode(func(o *gio.DataOutputX) { value.WriteValue(o, v) }))
+				if conf == nil {
+					conf = confFor(fmt.Sprint("value/", t), mk)
+				}
+				v, b := mk(c.Rng("value", cas))
+				tags := append([]tagpos{{Pos: 0, W: 1, Kind: "value"}}, nestedTags(v, b, conf)...)
+				add("value", cas, item{Kind: "value", Sub: fmt.Sprint(t), Tags: tags}, b)
 			}
 			cas++
 		}
 	}
 	cas = 0
 	for _, t := range gen.StepTypes {
+		t := t
+		mk := func(r *rand.Rand) (interface{}, []byte) {
+			s := gen.Step(r, t)
+			return s, gen.Encode(func(o *gio.DataOutputX) { step.WriteStep(o, s) })
+		}
+		var conf map[string]bool
 		for i := 0; i < per; i++ {
 			if c.Want("step", cas) {
-				r := c.Rng("step", cas)
-				s := gen.Step(r, t)
-				add("step", cas, item{Kind: "step", Sub: fmt.Sprint(t)}, gen.Encode(func(o *gio.DataOutputX) { step.WriteStep(o, s) }))
+				if conf == nil {
+					conf = confFor(fmt.Sprint("step/", t), mk)
+				}
+				s, b := mk(c.Rng("step", cas))
+				tags := append([]tagpos{{Pos: 0, W: 1, Kind: "step"}}, nestedTags(s, b, conf)...)
+				add("step", cas, item{Kind: "step", Sub: fmt.Sprint(t), Tags: tags}, b)
 			}
 			cas++
 		}
 	}
 	// (streams of several steps are not a unit of this property: a stream cut at a step
 	// boundary is a valid shorter stream; C08 covers streams)
-	for cas = 0; cas < per*3; cas++ {
-		if c.Want("txrecord", cas) {
-			r := c.Rng("txrecord", cas)
+	{
+		mk := func(r *rand.Rand) (interface{}, []byte) {
 			t := gen.TxRecord(r)
-			add("txrecord", cas, item{Kind: "txrecord"}, gen.Encode(func(o *gio.DataOutputX) { t.Write(o) }))
+			return t, gen.Encode(func(o *gio.DataOutputX) { t.Write(o) })
+		}
+		var conf map[string]bool
+		for cas = 0; cas < per*3; cas++ {
+			if c.Want("txrecord", cas) {
+				if conf == nil {
+					conf = confFor("txrecord", mk)
+				}
+				t, b := mk(c.Rng("txrecord", cas))
+				add("txrecord", cas, item{Kind: "txrecord", Tags: nestedTags(t, b, conf)}, b)
+			}
 		}
 	}
 	cas = 0
 	for _, st := range []byte{service.SERVICE_WAS, service.SERVICE_APP, service.SERVICE_WAS_2} {
+		st := st
+		mk := func(r *rand.Rand) (interface{}, []byte) {
+			s := service.CreateService(st)
+			gen.Fill(r, s, 1)
+			return s, gen.Encode(func(o *gio.DataOutputX) { service.ToBytes(s, o) })
+		}
+		var conf map[string]bool
 		for i := 0; i < per; i++ {
 			if c.Want("service", cas) {
-				r := c.Rng("service", cas)
-				s := service.CreateService(st)
-				gen.Fill(r, s, 1)
-				add("service", cas, item{Kind: "service", Sub: fmt.Sprint(st)}, gen.Encode(func(o *gio.DataOutputX) { service.ToBytes(s, o) }))
+				if conf == nil {
+					conf = confFor(fmt.Sprint("service/", st), mk)
+				}
+				s, b := mk(c.Rng("service", cas))
+				tags := append([]tagpos{{Pos: 0, W: 1, Kind: "service"}}, nestedTags(s, b, conf)...)
+				add("service", cas, item{Kind: "service", Sub: fmt.Sprint(st), Tags: tags}, b)
 			}
 			cas++
 		}
 	}
-	cas = 0
-	for _, t := range gen.PackTypes {
-		for i := 0; i < per; i++ {
-			if c.Want("pack", cas) {
-				r := c.Rng("pack", cas)
+	// packs of the factory: Pack = exported fields only, PackDeep = with the lazily decoded second stage filled
+	for _, g := range []string{"pack", "packdeep"} {
+		g := g
+		cas = 0
+		for _, t := range gen.PackTypes {
+			t := t
+			mk := func(r *rand.Rand) (interface{}, []byte) {
 				var p pack.Pack
-				core.Guard(func() { p = gen.Pack(r, t) })
+				if g == "pack" {
+					p = gen.Pack(r, t)
+				} else {
+					p = gen.PackDeep(r, t)
+				}
+				if p == nil {
+					return nil, nil
+				}
+				return p, gen.Encode(func(o *gio.DataOutputX) { pack.WritePack(o, p) })
+			}
+			var conf map[string]bool
+			for i := 0; i < per; i++ {
+				if c.Want(g, cas) {
+					if conf == nil {
+						conf = confFor(fmt.Sprint(g, "/", t), mk)
+					}
+					var p interface{}
+					var b []byte
+					core.Guard(func() { p, b = mk(c.Rng(g, cas)) })
+					if p != nil {
+						tags := append([]tagpos{{Pos: 0, W: 2, Kind: "pack"}}, nestedTags(p, b, conf)...)
+						add(g, cas, item{Kind: "pack", Sub: fmt.Sprint(t), Tags: tags}, b)
+					}
+				}
+				cas++
+			}
+		}
+	}
+	// containers put together by construction, so that the tags of the nested packs are known:
+	// a composite pack (decoded at once) and zip packs (record stream decoded by GetRecords)
+	for cas = 0; cas < per*3; cas++ {
+		if c.Want("nest", cas) {
+			r := c.Rng("nest", cas)
+			cas := cas
+			core.Guard(func() {
+				var recs [][]byte
+				for i, n := 0, 1+r.Intn(3); i < n; i++ {
+					p := gen.Pack(r, []int16{pack.PACK_TEXT, pack.PACK_PARAMETER, pack.TAG_COUNT, pack.PACK_LOGSINK, pack.PACK_EVENT}[r.Intn(5)])
+					recs = append(recs, gen.Encode(func(o *gio.DataOutputX) { pack.WritePack(o, p) }))
+				}
+				var b []byte
+				var tags []tagpos
+				it := item{Kind: "pack"}
+				switch cas % 3 {
+				case 0: // composite: header, 16-bit count, the packs
+					base := gen.Encode(func(o *gio.DataOutputX) { pack.WritePack(o, gen.Pack(r, pack.PACK_COMPOSITE)) })
+					b = append([]byte(nil), base[:len(base)-2]...)
+					b = append(b, byte(len(recs)>>8), byte(len(recs)))
+					tags = []tagpos{{Pos: 0, W: 2, Kind: "pack"}}
+					for _, x := range recs {
+						tags = append(tags, tagpos{Pos: len(b), W: 2, Kind: "pack", Nest: "composite[]"})
+						b = append(b, x...)
+					}
+					it.Sub = fmt.Sprint(pack.PACK_COMPOSITE)
+				default: // zip / log-sink zip, records not compressed: the record stream is the trailing blob
+					var z pack.Pack
+					if cas%3 == 1 {
+						q := gen.Pack(r, pack.PACK_ZIP).(*pack.ZipPack)
+						q.Status, q.RecordCount, q.Records = 0, len(recs), bytes.Join(recs, nil)
+						z = q
+					} else {
+						recs = recs[:0]
+						for i, n := 0, 1+r.Intn(3); i < n; i++ {
+							p := gen.Pack(r, pack.PACK_LOGSINK)
+							recs = append(recs, gen.Encode(func(o *gio.DataOutputX) { pack.WritePack(o, p) }))
+						}
+						q := gen.Pack(r, pack.PACK_LOGSINK_ZIP).(*pack.LogSinkZipPack)
+						q.Status, q.RecordCount, q.Records = 0, len(recs), bytes.Join(recs, nil)
+						z = q
+					}
+					stream := bytes.Join(recs, nil)
+					b = gen.Encode(func(o *gio.DataOutputX) { pack.WritePack(o, z) })
+					if !bytes.HasSuffix(b, stream) {
+						return
+					}
+					tags = []tagpos{{Pos: 0, W: 2, Kind: "pack"}}
+					off := len(b) - len(stream)
+					for _, x := range recs {
+						tags = append(tags, tagpos{Pos: off, W: 2, Kind: "pack", Nest: "records[]", Acc: "GetRecords"})
+						off += len(x)
+					}
+					it.Sub = fmt.Sprint(z.GetPackType())
+				}
+				it.Tags = tags
+				add("nest", cas, it, b)
+			})
+		}
+	}
+	// packs and records no factory creates: decoded through their own Read
+	cas = 0
+	for di := range gen.DirectTypes {
+		di := di
+		mk := func(r *rand.Rand) (interface{}, []byte) {
+			p := gen.Direct(r, di)
+			return p, gen.Encode(func(o *gio.DataOutputX) {
+				reflect.ValueOf(p).MethodByName("Write").Call([]reflect.Value{reflect.ValueOf(o)})
+			})
+		}
+		var conf map[string]bool
+		for i := 0; i < per; i++ {
+			if c.Want("direct", cas) {
+				if conf == nil {
+					conf = confFor("direct/"+gen.DirectTypes[di].Name, mk)
+				}
+				var p interface{}
+				var b []byte
+				core.Guard(func() { p, b = mk(c.Rng("direct", cas)) })
 				if p != nil {
-					add("pack", cas, item{Kind: "pack", Sub: fmt.Sprint(t)}, gen.Encode(func(o *gio.DataOutputX) { pack.WritePack(o, p) }))
+					add("direct", cas, item{Kind: "direct", Sub: gen.DirectTypes[di].Name, Tags: nestedTags(p, b, conf)}, b)
 				}
 			}
 			cas++
@@ -265,28 +712,45 @@ func generate(c *core.Ctx) []item {
 			cas++
 		}
 	}
+	stream := func(r *rand.Rand, pool []string) (string, []byte) {
+		var ops []string
+		out := gio.NewDataOutputX()
+		for i, n := 0, 1+r.Intn(5); i < n; i++ {
+			op := pool[r.Intn(len(pool))]
+			ops = append(ops, op)
+			writePrim(r, out, op)
+		}
+		return strings.Join(ops, ","), append([]byte(nil), out.ToByteArray()...)
+	}
 	for cas = 0; cas < per*6; cas++ {
 		if c.Want("prim", cas) {
-			r := c.Rng("prim", cas)
-			var ops []string
-			out := gio.NewDataOutputX()
-			for i, n := 0, 1+r.Intn(5); i < n; i++ {
-				op := primOps[r.Intn(len(primOps))]
-				ops = append(ops, op)
-				writePrim(r, out, op)
-			}
-			add("prim", cas, item{Kind: "prim", Sub: strings.Join(ops, ",")}, append([]byte(nil), out.ToByteArray()...))
+			ops, b := stream(c.Rng("prim", cas), primOps)
+			add("prim", cas, item{Kind: "prim", Sub: ops}, b)
+		}
+	}
+	// the same reads from a connection (DataInputX over a net.Conn): truncation = the peer ends the stream early
+	for cas = 0; cas < per*4; cas++ {
+		if c.Want("net", cas) {
+			ops, b := stream(c.Rng("net", cas), primOps)
+			add("net", cas, item{Kind: "net", Sub: ops, NoHostile: true}, b)
+		}
+	}
+	for cas = 0; cas < per*3; cas++ {
+		if c.Want("netframe", cas) {
+			ops, b := stream(c.Rng("netframe", cas), frameOps)
+			add("netframe", cas, item{Kind: "net", Sub: ops}, b)
 		}
 	}
 	return items
 }
 
-// patches are the hostile overwrites tried at every offset.
+// patches are the hostile overwrites tried at every offset ("rel": computed from the byte found there).
 var patches = []struct {
 	name string
 	b    []byte
 }{
 	{"b255", []byte{255}}, {"b254", []byte{254}}, {"b127", []byte{127}}, {"b128", []byte{128}}, {"b0", []byte{0}}, {"b9", []byte{9}},
+	{"b1", []byte{1}}, {"b2", []byte{2}}, {"rel-1", []byte{0}}, {"rel+1", []byte{0}}, {"relhalf", []byte{0}},
 	{"s7fff", []byte{0x7f, 0xff}}, {"sffff", []byte{0xff, 0xff}},
 	{"i7fffffff", []byte{0x7f, 0xff, 0xff, 0xff}}, {"i80000000", []byte{0x80, 0, 0, 0}}, {"iffffffff", []byte{0xff, 0xff, 0xff, 0xff}},
 	{"i00ffffff", []byte{0, 0xff, 0xff, 0xff}}, {"i0000ffff", []byte{0, 0, 0xff, 0xff}},
@@ -294,6 +758,18 @@ var patches = []struct {
 	{"dec4", []byte{4, 0x7f, 0xff, 0xff, 0xff}}, {"dec4m", []byte{4, 0x01, 0, 0, 0}}, {"dec3", []byte{3, 0x7f, 0xff, 0xff}}, {"dec2", []byte{2, 0x7f, 0xff}},
 	{"dec8", []byte{8, 0, 0, 0, 0, 0x10, 0, 0, 0}}, {"dec8neg", []byte{8, 0xff, 0xff, 0xff, 0xff, 0xff, 0xff, 0xff, 0xff}},
 	{"dec5", []byte{5, 0x7f, 0xff, 0xff, 0xff, 0xff}},
+}
+
+func patchBytes(name string, fixed []byte, at byte) []byte {
+	switch name {
+	case "rel-1":
+		return []byte{at - 1}
+	case "rel+1":
+		return []byte{at + 1}
+	case "relhalf":
+		return []byte{at >> 1}
+	}
+	return fixed
 }
 
 const allocCap = 1 << 30
@@ -305,6 +781,9 @@ type result struct {
 	OkCuts   []int  `json:"okcuts"`
 	Overrun  int    `json:"overrun"` // max over ok cuts of consumed - cut
 	Hostile  []hres `json:"hostile"`
+	Lazy     *lazy  `json:"lazy,omitempty"`
+	Tags     []tres `json:"tags,omitempty"`
+	Net      []nres `json:"net,omitempty"`
 }
 type hres struct {
 	Patch    string   `json:"patch"`
@@ -316,8 +795,44 @@ type hres struct {
 	MaxLen   int      `json:"len"`
 }
 
+// lazy: the second-stage call sequences run on the objects this item's inputs decoded to.
+type lazy struct {
+	N0       int       `json:"n0"`   // objects of hostile inputs on which every accessor was called once
+	N        int       `json:"n"`    // sequences run
+	Accs     []string  `json:"accs"` // the accessors of the object
+	Seqs     []lazySeq `json:"seqs"` // every distinct (accessor, outcomes) observed, with the first input showing it
+	MaxAlloc int       `json:"maxalloc"` // largest allocation of one whole sequence
+	At       string    `json:"at"`
+	AccAlloc int       `json:"accalloc"` // largest allocation of one accessor call (first call on a fresh object)
+	AccAt    string    `json:"accat"`
+	seen     map[string]bool
+	done     map[string]bool
+}
+type lazySeq struct {
+	Acc string   `json:"acc"`
+	R   []string `json:"r"` // first call, second call, write, the same call on the decoded written bytes
+	In  string   `json:"in"`
+}
+
+// tres: all codes tried at one tag position.
+type tres struct {
+	tagpos
+	N       int   `json:"n"`
+	OkCodes []int `json:"okcodes"`
+}
+
+// nres: the truncation run of a connection-read stream under one way of ending the stream.
+type nres struct {
+	Mode     string `json:"mode"`
+	Chunk    int    `json:"chunk"`
+	Full     string `json:"full"`
+	Consumed int    `json:"consumed"`
+	OkCuts   []int  `json:"okcuts"`
+	Overrun  int    `json:"overrun"`
+}
+
 func try(it *item, b []byte) (out string, consumed int) {
-	msg := core.Guard(func() { consumed = decode(it, b) })
+	msg := core.Guard(func() { _, consumed = decode(it, b) })
 	if msg != "" {
 		return "failed", 0
 	}
@@ -336,8 +851,211 @@ func allocOf(f func()) int {
 	return int(d)
 }
 
+// ----------------------------------------------------------------- second stage
+
+// mutators are not accessors: they are meant to change the object.
+var mutators = []string{"Set", "Put", "Add", "Read", "Write", "Clear", "Merge", "Reset", "Transfer", "Sort", "Remove", "Init",
+	"Process", "Close", "Append", "Insert", "Delete", "Update", "Copy"}
+
+// accessorsOf: every exported method of obj that is not a mutator and whose arguments can be
+// made up (strings = the first table column key, numbers = 0, callbacks = no-ops, interfaces = nil).
+func accessorsOf(obj interface{}) []string {
+	if obj == nil {
+		return nil
+	}
+	t := reflect.TypeOf(obj)
+	var out []string
+next:
+	for i := 0; i < t.NumMethod(); i++ {
+		m := t.Method(i)
+		for _, p := range mutators {
+			if strings.HasPrefix(m.Name, p) {
+				continue next
+			}
+		}
+		if m.Type.IsVariadic() {
+			continue
+		}
+		for j := 1; j < m.Type.NumIn(); j++ {
+			switch m.Type.In(j).Kind() {
+			case reflect.String, reflect.Bool, reflect.Int, reflect.Int8, reflect.Int16, reflect.Int32, reflect.Int64,
+				reflect.Uint, reflect.Uint8, reflect.Uint16, reflect.Uint32, reflect.Uint64, reflect.Float32, reflect.Float64,
+				reflect.Func, reflect.Interface:
+			default:
+				continue next
+			}
+		}
+		out = append(out, m.Name)
+	}
+	return out
+}
+
+// callAcc calls accessor name on obj with made-up arguments.
+func callAcc(obj interface{}, name string) string {
+	msg := core.Guard(func() {
+		m := reflect.ValueOf(obj).MethodByName(name)
+		mt := m.Type()
+		args := make([]reflect.Value, mt.NumIn())
+		for j := range args {
+			at := mt.In(j)
+			switch at.Kind() {
+			case reflect.String:
+				args[j] = reflect.ValueOf(gen.ColumnKey(0)).Convert(at)
+			case reflect.Func:
+				args[j] = reflect.MakeFunc(at, func([]reflect.Value) []reflect.Value {
+					outs := make([]reflect.Value, at.NumOut())
+					for k := range outs {
+						outs[k] = reflect.Zero(at.Out(k))
+					}
+					return outs
+				})
+			default:
+				args[j] = reflect.Zero(at)
+			}
+		}
+		m.Call(args)
+	})
+	if msg != "" {
+		return "failed"
+	}
+	return "ok"
+}
+
+var heapSample = []metrics.Sample{{Name: "/gc/heap/allocs:bytes"}}
+
+// cheapAlloc reads the allocation counter without stopping the world; small allocations show up
+// late in it, so it only serves to pick the calls that are measured again exactly.
+func cheapAlloc() uint64 {
+	metrics.Read(heapSample)
+	return heapSample[0].Value.Uint64()
+}
+
+const screen = 256 << 10
+
+// firstCalls calls every accessor of obj once and returns the accessors, which of them failed,
+// and which of them seem to have allocated a lot (to be measured exactly on a fresh object).
+func firstCalls(obj interface{}) (accs []string, failed map[string]bool, big []string) {
+	if obj == nil {
+		return nil, nil, nil
+	}
+	if v := reflect.ValueOf(obj); v.Kind() == reflect.Ptr && v.IsNil() {
+		return nil, nil, nil
+	}
+	accs = accessorsOf(obj)
+	failed = map[string]bool{}
+	for _, a := range accs {
+		a0 := cheapAlloc()
+		if callAcc(obj, a) == "failed" {
+			failed[a] = true
+		}
+		if cheapAlloc()-a0 > screen {
+			big = append(big, a)
+		}
+	}
+	return accs, failed, big
+}
+
+// exactCalls measures the first call of each accessor in big on a fresh object of its own.
+func exactCalls(it *item, b []byte, big []string, in string, lz *lazy) {
+	for _, a := range big {
+		var obj interface{}
+		if core.Guard(func() { obj, _ = decode(it, b) }) != "" {
+			continue
+		}
+		if al := allocOf(func() { callAcc(obj, a) }); al > lz.AccAlloc {
+			lz.AccAlloc, lz.AccAt = al, in+" "+a
+		}
+	}
+}
+
+// sequences runs, for every accessor A of the object b decodes to, on a fresh object of its own
+// (so that no other accessor's side effects stand between the calls) the sequence
+//
+//	decode(b); A; A; Write -> w; decode(w); A
+//
+// and adds every distinct outcome to lz.
+func sequences(it *item, b []byte, accs []string, in string, lz *lazy) {
+	if lz.Accs == nil {
+		lz.Accs = accs
+	}
+	for _, a := range accs {
+		r := []string{"none", "none", "none", "none"}
+		al := allocOf(func() {
+			var obj interface{}
+			if core.Guard(func() { obj, _ = decode(it, b) }) != "" {
+				return
+			}
+			r[0] = callAcc(obj, a)
+			r[1] = callAcc(obj, a)
+			var w []byte
+			if core.Guard(func() { w = encode(it, obj) }) != "" {
+				r[2] = "failed"
+				return
+			}
+			r[2] = "ok"
+			var obj2 interface{}
+			if core.Guard(func() { obj2, _ = decode(it, w) }) != "" || obj2 == nil || reflect.TypeOf(obj2) != reflect.TypeOf(obj) {
+				r[3] = "undecodable"
+				return
+			}
+			r[3] = callAcc(obj2, a)
+		})
+		lz.N++
+		if al > lz.MaxAlloc {
+			lz.MaxAlloc, lz.At = al, in+" "+a
+		}
+		k := a + "|" + strings.Join(r, ",")
+		if !lz.seen[k] {
+			lz.seen[k] = true
+			lz.Seqs = append(lz.Seqs, lazySeq{Acc: a, R: r, In: in})
+		}
+	}
+}
+
+// sweepCodes: the codes tried at a tag position: all 256 of a one-byte tag; of a 16-bit
+// tag every code that keeps one of its two bytes, the neighbours of the registered codes
+// and some far ones (all 65536 when `all`).
+func sweepCodes(tp tagpos, orig []byte, all bool) []int {
+	if tp.W == 1 {
+		out := make([]int, 256)
+		for i := range out {
+			out[i] = i
+		}
+		return out
+	}
+	if all {
+		out := make([]int, 65536)
+		for i := range out {
+			out[i] = i
+		}
+		return out
+	}
+	seen := map[int]bool{}
+	var out []int
+	addc := func(c int) {
+		c &= 0xffff
+		if !seen[c] {
+			seen[c] = true
+			out = append(out, c)
+		}
+	}
+	for x := 0; x < 256; x++ {
+		addc(x<<8 | int(orig[1]))
+		addc(int(orig[0])<<8 | x)
+	}
+	for _, c := range []int{0, 1, 0xffff, 0x7fff, 0x8000, 0x7f7f, 0x0701, 0x0702, 0x3003, 0x1601, 0x1701, 0x0100, 0x0200} {
+		addc(c)
+	}
+	for _, t := range gen.PackTypes {
+		for d := -2; d <= 2; d++ {
+			addc(int(t) + d)
+		}
+	}
+	return out
+}
+
 // child: decode everything in the work file from index `from`, one JSON line per item.
-func child(work string, from int, hostile bool) {
+func child(work string, from int, hostile bool, thorough bool) {
 	f, err := os.Open(work)
 	if err != nil {
 		panic(err)
@@ -353,7 +1071,26 @@ func child(work string, from int, hostile bool) {
 		fmt.Fprintf(w, "BEGIN %d\n", i)
 		w.Flush()
 		res := result{Idx: i, OkCuts: []int{}, Overrun: -1 << 20}
+		lz := &lazy{seen: map[string]bool{}, done: map[string]bool{}, Seqs: []lazySeq{}}
+		objKind := it.Kind != "net" && it.Kind != "prim"
+		var base map[string]bool // accessors failing on the object of the valid encoding (nil: it did not decode)
 		res.Full, res.Consumed = try(it, b)
+		if res.Full == "ok" && objKind {
+			fmt.Fprintf(w, "AT %d full 0\n", i)
+			w.Flush()
+			var accs, big []string
+			core.Guard(func() {
+				obj, _ := decode(it, b)
+				accs, base, big = firstCalls(obj)
+			})
+			exactCalls(it, b, big, "full", lz)
+			if accs != nil {
+				sequences(it, b, accs, "full", lz)
+			}
+			if base == nil {
+				base = map[string]bool{}
+			}
+		}
 		for cut := 0; cut < len(b); cut++ {
 			o, cons := try(it, b[:cut:cut])
 			if o == "ok" {
@@ -363,18 +1100,62 @@ func child(work string, from int, hostile bool) {
 				}
 			}
 		}
-		if hostile {
+		if it.Kind == "net" { // every way the peer can end the stream, delivered whole and in small pieces
+			for _, mode := range []string{"eof", "err", "eofdata"} {
+				for _, chunk := range []int{0, 1, 3} {
+					nr := nres{Mode: mode, Chunk: chunk, OkCuts: []int{}, Overrun: -1 << 20}
+					nr.Full = "ok"
+					if core.Guard(func() { _, nr.Consumed = decodeNet(it, b, mode, chunk) }) != "" {
+						nr.Full, nr.Consumed = "failed", 0
+					}
+					for cut := 0; cut < len(b); cut++ {
+						cons := 0
+						if core.Guard(func() { _, cons = decodeNet(it, b[:cut:cut], mode, chunk) }) == "" {
+							nr.OkCuts = append(nr.OkCuts, cut)
+							if cons-cut > nr.Overrun {
+								nr.Overrun = cons - cut
+							}
+						}
+					}
+					res.Net = append(res.Net, nr)
+				}
+			}
+		}
+		if hostile && !it.NoHostile {
 			for _, p := range patches {
 				h := hres{Patch: p.name, Overrun: -1 << 20, AtPos: -1, MaxLen: len(b)}
 				seen := map[string]bool{}
 				for pos := 0; pos+len(p.b) <= len(b) && pos < 400; pos++ {
+					pb := patchBytes(p.name, p.b, b[pos])
 					hb := append([]byte(nil), b...)
-					copy(hb[pos:], p.b)
+					copy(hb[pos:], pb)
 					fmt.Fprintf(w, "AT %d %s %d\n", i, p.name, pos)
 					w.Flush()
 					var o string
 					var cons int
-					a := allocOf(func() { o, cons = try(it, hb) })
+					var obj interface{}
+					a := allocOf(func() {
+						if core.Guard(func() { obj, cons = decode(it, hb) }) != "" {
+							o, cons, obj = "failed", 0, nil
+							return
+						}
+						o = "ok"
+					})
+					// on the object the first stage returned: every accessor once
+					var accs, big []string
+					var failed map[string]bool
+					if o == "ok" && objKind {
+						k := cons
+						if k < 0 || k > len(hb) {
+							k = len(hb)
+						}
+						if key := string(hb[:k]); !lz.done[key] { // the decoder is a function of the bytes it reads
+							lz.done[key] = true
+							accs, failed, big = firstCalls(obj)
+							lz.N0++
+							exactCalls(it, hb, big, fmt.Sprintf("%s@%d", p.name, pos), lz)
+						}
+					}
 					h.N++
 					seen[o] = true
 					if a > h.MaxAlloc {
@@ -383,14 +1164,61 @@ func child(work string, from int, hostile bool) {
 					if o == "ok" && cons-len(hb) > h.Overrun {
 						h.Overrun = cons - len(hb)
 					}
+					// an accessor fails that does not fail on the object of the valid encoding: the call sequences
+					alone := base == nil && accs != nil
+					for a := range failed {
+						if !base[a] {
+							alone = true
+						}
+					}
+					if alone {
+						sequences(it, hb, accs, fmt.Sprintf("%s@%d", p.name, pos), lz)
+					}
 				}
 				for k := range seen {
 					h.Outcomes = append(h.Outcomes, k)
 				}
+				sort.Strings(h.Outcomes)
 				if h.N > 0 {
 					res.Hostile = append(res.Hostile, h)
 				}
 			}
+		}
+		if hostile {
+			for ti, tp := range it.Tags {
+				if tp.Pos+tp.W > len(b) {
+					continue
+				}
+				tr := tres{tagpos: tp, OkCodes: []int{}}
+				for _, code := range sweepCodes(tp, b[tp.Pos:tp.Pos+tp.W], thorough && ti == 0 && i%8 == 0) {
+					hb := append([]byte(nil), b...)
+					if tp.W == 1 {
+						hb[tp.Pos] = byte(code)
+					} else {
+						hb[tp.Pos], hb[tp.Pos+1] = byte(code>>8), byte(code)
+					}
+					if code&0xff == 0 {
+						fmt.Fprintf(w, "AT %d tag@%d %d\n", i, tp.Pos, code)
+						w.Flush()
+					}
+					msg := core.Guard(func() {
+						obj, _ := decode(it, hb)
+						if tp.Acc != "" {
+							if callAcc(obj, tp.Acc) != "ok" {
+								panic("accessor failed")
+							}
+						}
+					})
+					tr.N++
+					if msg == "" {
+						tr.OkCodes = append(tr.OkCodes, code)
+					}
+				}
+				res.Tags = append(res.Tags, tr)
+			}
+		}
+		if lz.N > 0 || lz.N0 > 0 {
+			res.Lazy = lz
 		}
 		j, _ := json.Marshal(res)
 		fmt.Fprintf(w, "RES %s\n", j)
@@ -403,10 +1231,10 @@ func child(work string, from int, hostile bool) {
 func Run(c *core.Ctx) error {
 	if c.Args["mode"] == "child" {
 		from, _ := strconv.Atoi(c.Args["from"])
-		child(c.Args["work"], from, c.Args["hostile"] != "0")
+		child(c.Args["work"], from, c.Args["hostile"] != "0", c.Thorough())
 		os.Exit(0)
 	}
-	c.Rule = "valid encodings of values (20 type codes), steps (9 types) and step streams, transaction/service records, packs (24 factory types), UDP packs and primitive streams, built through golib's constructors with random field values; for each: the full decode, EVERY strict prefix, and hostile overwrites (23 length/count/tag patterns at every offset < 400) decoded in a child process under an address-space limit; non-trivial = encoding of >= 2 bytes; distinct by (kind, type, bytes)"
+	c.Rule = "valid encodings of values (20 type codes), steps (10 types), transaction/service records, packs (24 factory types, plain and with the lazily decoded second stage filled: tables, record blobs plain and compressed, profiles), containers put together by construction (composite, zip, log-sink zip), 20 packs/records decoded through their own Read, UDP packs and primitive streams read from a buffer and from a connection, built through golib's constructors with random field values; for each: the full decode, EVERY strict prefix (connection: every point and way the peer ends the stream), hostile overwrites (28 length/count/tag patterns at every offset < 400), every code at every position holding a type tag by construction, and on every returned object each public accessor twice + write + re-decode + accessor, in a child process under an address-space limit; non-trivial = encoding of >= 2 bytes; distinct by (kind, type, bytes)"
 	items := generate(c)
 	work := c.OutDir + "/work.json"
 	wb, _ := json.Marshal(items)
@@ -418,7 +1246,7 @@ func Run(c *core.Ctx) error {
 	from := 0
 	self, _ := os.Executable()
 	for from < len(items) {
-		cmd := exec.Command("prlimit", "--as=8589934592", self, "-out", c.OutDir, "-args",
+		cmd := exec.Command("prlimit", "--as=8589934592", self, "-tier", c.Tier, "-out", c.OutDir, "-args",
 			fmt.Sprintf("mode=child,work=%s,from=%d", work, from), "c04")
 		cmd.Env = append(os.Environ(), "GOMAXPROCS=2")
 		stdout, _ := cmd.StdoutPipe()
@@ -437,7 +1265,8 @@ func Run(c *core.Ctx) error {
 			}
 			close(lines)
 		}()
-		timer := time.NewTimer(60 * time.Second)
+		const patience = 120 * time.Second // without any progress line
+		timer := time.NewTimer(patience)
 	loop:
 		for {
 			select {
@@ -445,17 +1274,17 @@ func Run(c *core.Ctx) error {
 				if !ok {
 					break loop
 				}
+				if !timer.Stop() {
+					select {
+					case <-timer.C:
+					default:
+					}
+				}
+				timer.Reset(patience)
 				switch {
 				case strings.HasPrefix(ln, "BEGIN "):
 					cur, _ = strconv.Atoi(ln[6:])
 					at = ""
-					if !timer.Stop() {
-						select {
-						case <-timer.C:
-						default:
-						}
-					}
-					timer.Reset(60 * time.Second)
 				case strings.HasPrefix(ln, "AT "):
 					at = ln[3:]
 				case strings.HasPrefix(ln, "RES "):
@@ -487,14 +1316,16 @@ func Run(c *core.Ctx) error {
 	}
 
 	t := c.Trace("c04_decode", "Trace_FailClosed")
-	byKind := map[string]int{}
-	fullFailed := 0
+	byGen := map[string]int{}
+	fullFailed, lazySeqs, lazyFirst, tagPositions, nestedTagPositions := 0, 0, 0, 0, 0
+	accNames := map[string]bool{}
+	nestPats := map[string]bool{}
 	for i := range items {
 		it := &items[i]
 		n := len(it.Hex) / 2
 		t.Reset(it.Gen, it.Case, core.Ev{"kind": it.Kind, "sub": it.Sub})
 		c.Count(it.Kind+it.Sub+it.Hex, n >= 2)
-		byKind[it.Kind]++
+		byGen[it.Gen]++
 		if msg, bad := fatal[i]; bad {
 			parts := strings.SplitN(msg, " ", 2)
 			t.Emit(core.Ev{"ev": "Died", "how": parts[0], "at": msg, "len": n})
@@ -507,17 +1338,49 @@ func Run(c *core.Ctx) error {
 		if r.Full != "ok" {
 			fullFailed++
 		}
-		t.Emit(core.Ev{"ev": "Obj", "len": n, "full": r.Full, "consumed": r.Consumed, "okcuts": r.OkCuts, "overrun": r.Overrun})
+		t.Emit(core.Ev{"ev": "Obj", "via": "buffer", "len": n, "full": r.Full, "consumed": r.Consumed, "okcuts": r.OkCuts, "overrun": r.Overrun})
+		for _, nr := range r.Net {
+			t.Emit(core.Ev{"ev": "Obj", "via": fmt.Sprintf("conn/%s/%d", nr.Mode, nr.Chunk), "len": n, "full": nr.Full, "consumed": nr.Consumed,
+				"okcuts": nr.OkCuts, "overrun": nr.Overrun})
+		}
 		for _, h := range r.Hostile {
 			t.Emit(core.Ev{"ev": "Hostile", "len": h.MaxLen, "patch": h.Patch, "n": h.N, "outcomes": h.Outcomes,
 				"maxalloc": h.MaxAlloc, "atpos": h.AtPos, "overrun": h.Overrun})
+		}
+		if r.Lazy != nil {
+			lazySeqs += r.Lazy.N
+			lazyFirst += r.Lazy.N0
+			for _, a := range r.Lazy.Accs {
+				accNames[it.Kind+"/"+it.Sub+"."+a] = true
+			}
+			t.Emit(core.Ev{"ev": "Lazy", "len": n, "n0": r.Lazy.N0, "n": r.Lazy.N, "seqs": r.Lazy.Seqs, "maxalloc": r.Lazy.MaxAlloc, "at": r.Lazy.At,
+				"accalloc": r.Lazy.AccAlloc, "accat": r.Lazy.AccAt})
+		}
+		for _, tr := range r.Tags {
+			tagPositions++
+			if tr.Nest != "" {
+				nestedTagPositions++
+				nestPats[it.Kind+"/"+it.Sub+tr.Nest] = true
+			}
+			t.Emit(core.Ev{"ev": "Tag", "reg": tr.Kind, "pos": tr.Pos, "w": tr.W, "nest": tr.Nest, "acc": tr.Acc, "n": tr.N, "okcodes": tr.OkCodes})
 		}
 		if i < 3 {
 			c.Sample(map[string]interface{}{"kind": it.Kind, "type": it.Sub, "encoding_hex": it.Hex, "consumed": r.Consumed, "ok_cuts": r.OkCuts})
 		}
 	}
-	c.SetExtra("objects_by_kind", byKind)
+	var pats []string
+	for p := range nestPats {
+		pats = append(pats, p)
+	}
+	sort.Strings(pats)
+	c.SetExtra("objects_by_gen", byGen)
 	c.SetExtra("full_decode_failed", fullFailed)
 	c.SetExtra("hostile_patches", len(patches))
+	c.SetExtra("second_stage_sequences", lazySeqs)
+	c.SetExtra("second_stage_objects_accessed", lazyFirst)
+	c.SetExtra("second_stage_accessors", len(accNames))
+	c.SetExtra("tag_positions", tagPositions)
+	c.SetExtra("tag_positions_nested", nestedTagPositions)
+	c.SetExtra("nested_tag_sites", pats)
 	return nil
 }
